@@ -14,6 +14,7 @@ type c12FS struct {
 	d     string
 	sib   string
 	child string
+	tomb  bool
 }
 
 func c12FSPrestate() *c12FS {
@@ -35,6 +36,11 @@ func c12FSPrestate() *c12FS {
 	parent := s.d
 	if vm.Bool("childUnderSibling") {
 		parent = s.sib
+	}
+	s.tomb = vm.Bool("olderTombstoneInside")
+	if s.tomb {
+		// an entry of the directory that was removed earlier; its row is older than the rows of the live entries
+		v.Env.AddEntry(s.d+"/0", tar.TypeReg, 0, true, "")
 	}
 	s.child = parent + "/" + persisters.VerifComponent("C", 3, "ab_.")
 	v.Env.AddEntry(s.child, tar.TypeReg, 0, false, "")
@@ -76,6 +82,8 @@ func Harness_C12_removeall() {
 func Harness_C12_rename_dir() {
 	s := c12FSPrestate()
 	into := vm.Bool("intoOwnSubtree")
+	// (the refused renames are run without the older tombstone: the guard does not look at the directory's entries)
+	vm.Assume(!(into && s.tomb))
 	t := "/" + persisters.VerifComponent("T", 2, "abA_.")
 	if into {
 		// a destination one or two levels inside the directory; component names may start with dots
